@@ -43,6 +43,11 @@ func TestC17(t *testing.T) {
 		n := rapid.SampledFrom([]int{0, 1, 5, 40, 300, 600}).Draw(t, "rows")
 		path := rapid.SampledFrom([]string{"new-ptrs", "new-ptrs", "new-strings", "new-const", "readcsv", "readjson"}).Draw(t, "path")
 		outside := rapid.IntRange(0, 9).Draw(t, "outside") == 0 // one value outside the declared list
+		// CSV only: read with EmptyNull(false), so that empty cells are the value "" (declared lists then hold "" as one of their values)
+		csvEmptyIsValue := path == "readcsv" && rapid.Bool().Draw(t, "csvemptyvalue")
+		if csvEmptyIsValue {
+			decl[size/2] = ""
+		}
 		// data: ranks (or -1 = null); cover the boundary ranks on purpose
 		ranks := make([]int, n)
 		boundary := []int{0, 62, 63, 64, 65, 126, 127, 128, 129, 190, 191, 192, 193, 253, 254, size - 1}
@@ -72,6 +77,9 @@ func TestC17(t *testing.T) {
 		for r, k := range ranks {
 			if k >= 0 {
 				data[r] = hx.Sp(decl[k])
+			} else if csvEmptyIsValue {
+				data[r] = hx.Sp("") // an empty cell read without EmptyNull
+				ranks[r] = size / 2
 			}
 		}
 		outsidePos := -1
@@ -148,6 +156,10 @@ func TestC17(t *testing.T) {
 				fns := []csv.ConfigFunc{csv.Types(map[string]string{"e": "enum", "id": "int"}), csv.EmptyNull(true)}
 				if declared {
 					fns = append(fns, csv.EnumValues(map[string][]string{"e": enumConf}))
+				}
+				if csvEmptyIsValue {
+					// without EmptyNull an empty cell is the value "": it must be declared (or is derived)
+					fns[1] = csv.EmptyNull(false)
 				}
 				qf = qframe.ReadCSV(strings.NewReader(sb.String()), fns...)
 			case "readjson":
